@@ -4,3 +4,7 @@ cd "$(dirname "$(readlink -f "$0")")"
 mkdir -p bin
 cargo build -q -p simgen --target-dir target/simgen 2>&1
 cp target/simgen/debug/simgen bin/simgen
+# the generated bindings and the runtime without debug assertions (their
+# cfg!(debug_assertions) branches: unchecked lifts of bool/char/enum, ...)
+cargo build -q --profile nodebug -p simgen --target-dir target/simgen 2>&1
+cp target/simgen/nodebug/simgen bin/simgen-release
